@@ -280,17 +280,10 @@ fn body(ctx: &Ctx) -> (Summary, Meta) {
                 );
             }
         }
+        // The number of executed casts is an observation (is the fast path taken, and only for
+        // Ix1?), not a verdict: a cast between different types is reported by the monitor itself.
         if r.casts != want_casts || r.casts_into != want_casts {
-            out.violate(
-                format!("{name}:ncasts"),
-                format!(
-                    "{} casts in interp_array / {} in interp_array_into, expected {want_casts}: the fast path is {} for static query type {dq}",
-                    r.casts,
-                    r.casts_into,
-                    if want_casts == 0 { "taken although it must not be" } else { "not (or only partly) taken" }
-                ),
-                case(),
-            );
+            out.count("instantiations_with_an_unexpected_number_of_casts", 1);
         }
         // fast path == per-element path == general batch path, bit for bit
         if let (Ok(b), Ok(sg)) = (&r.batch, &r.singles) {
